@@ -2,10 +2,7 @@
 
 package sftp
 
-import (
-	"encoding"
-	"io"
-)
+import "io"
 
 func vSamePage(a, b []byte) bool { return &a[0] == &b[0] }
 
@@ -83,70 +80,11 @@ func vh_C18_state_machine() {
 	}
 }
 
-// release-after-send: maybeSendPackets gives the pages of an order id back
-// only after the response with that order id has been handed to the sender
-type vOrderSender struct {
-	alloc   *allocator
-	sentIDs []uint32
-	early   bool
-	pm      *packetManager
-}
+// release-after-send and tagging: the lemmas live in common_sftp/common_alloc.go
+// (C15 relies on them as well)
+func vh_C18_release_after_send() { vAllocReleaseAfterSend() }
 
-func (s *vOrderSender) sendPacket(m encoding.BinaryMarshaler) error {
-	r := m.(orderedResponse)
-	// at send time the pages of this order id must still be marked in use
-	if !s.alloc.isRequestOrderIDUsed(r.orderID()) {
-		s.early = true
-	}
-	s.sentIDs = append(s.sentIDs, r.orderID())
-	return nil
-}
-
-func vh_C18_release_after_send() {
-	a := newAllocator()
-	snd := &vOrderSender{alloc: a}
-	pm := vNewPktMgr(snd)
-	pm.alloc = a
-	k := 1 + vChoice(3)
-	var reqs []orderedRequest
-	for i := 0; i < k; i++ {
-		vAssert(pm.getNextOrderID() == pm.packetCount+1, "next order id is the one the next request gets")
-		next := pm.getNextOrderID()
-		a.GetPage(next) // recvPacket's page
-		r := pm.newOrderedRequest(&sshFxpReadPacket{ID: uint32(i), Handle: "1"})
-		vAssert(r.orderID() == next, "the request gets the order id its receive page was tagged with")
-		a.GetPage(r.orderID()) // getDataSlice's page
-		reqs = append(reqs, r)
-		pm.incoming = append(pm.incoming, r)
-	}
-	// responses complete in an arbitrary order
-	done := make([]bool, k)
-	for n := 0; n < k; n++ {
-		c := vChoice(k - n)
-		for j := 0; j < k; j++ {
-			if !done[j] {
-				if c == 0 {
-					done[j] = true
-					pm.outgoing = append(pm.outgoing, pm.newOrderedResponse(statusFromError(uint32(j), nil), reqs[j].orderID()))
-					pm.outgoing.Sort()
-					pm.maybeSendPackets()
-					break
-				}
-				c--
-			}
-		}
-		// pages of requests not yet answered are still in use
-		for j := 0; j < k; j++ {
-			sent := false
-			for _, id := range snd.sentIDs {
-				sent = sent || id == reqs[j].orderID()
-			}
-			vAssert(sent || a.isRequestOrderIDUsed(reqs[j].orderID()), "pages are not reused before the response that refers to them was written")
-		}
-	}
-	vAssert(!snd.early, "pages released only after the matching response was sent")
-	vAssert(len(snd.sentIDs) == k && a.countUsedPages() == 0, "once all responses are out no page is marked in use")
-}
+func vh_C18_pages_tagged() { vAllocPagesTagged() }
 
 // differential: the READ branch of both servers with the allocator on and off
 // gives byte-identical responses (dirty pages included)
@@ -193,50 +131,6 @@ func vh_C18_read_differential() {
 	on := run(true, rs)
 	vAssert(vBytesEq(off0, on), "allocator on/off: byte-identical response")
 	vEmit("resp", on)
-}
-
-// tagging: whatever the client chose as request id, every page a READ takes is
-// recorded under the request's order id - the only key maybeSendPackets releases
-// (added after seeded change C18-b)
-func vh_C18_pages_tagged() {
-	vErrKinds = 0
-	oid := uint32(1 + vChoice(3))
-	var id uint32
-	switch vChoice(4) {
-	case 0:
-		id = oid
-	case 1:
-		id = oid - 1 // the stock client: INIT took order id 1
-	case 2:
-		id = oid + 1 // the order id of the next request
-	default:
-		id = 0x80000001
-	}
-	pkt := &sshFxpReadPacket{ID: id, Handle: "1", Offset: uint64(vChoice(3)), Len: uint32(vChoice(5))}
-	alloc := newAllocator()
-	alloc.GetPage(oid) // the page recvPacket read the request into
-	vEnvReset()
-	vHReset()
-	kind := vChoice(3)
-	if kind < 2 {
-		s := vNewRequestServer(Handlers{vH{}, vH{}, vH{}, vH{}}, "/")
-		s.pktMgr.alloc = alloc
-		vOpenRequestOfKind(s, kind*2) // reader or read-writer
-		s.pktMgr.packetCount = oid - 1
-		_, err := vRSStep(s, pkt)
-		vAssert(err == nil, "worker continues")
-	} else {
-		s := vNewServer(false, "")
-		s.pktMgr.alloc = alloc
-		s.openFiles["1"] = &vMFile{name: "/o", data: []byte{1, 2, 3}}
-		s.pktMgr.packetCount = oid - 1
-		_, got, err := vWorkerStep(s, pkt)
-		vAssert(err == nil && got == oid, "worker continues")
-	}
-	vAssert(alloc.countUsedPages() == len(alloc.used[oid]), "every page in use is recorded under the request's order id")
-	vAssert(len(alloc.used[oid]) == 2, "one page for the request, one for the data")
-	alloc.ReleasePages(oid)
-	vAssert(alloc.countUsedPages() == 0, "releasing the order id frees everything the request took")
 }
 
 // differential over every request kind: the same request bytes received into
